@@ -398,6 +398,20 @@ class PseudoNetCDFFile(PseudoNetCDFSelfReg, object):
             ])
 
         timeunits = self.variables[timekey].units.strip()
+        if ' since ' in timeunits:
+            # read the reference date with the parser getTimes uses, so that
+            # date2num(getTimes()) returns the stored values
+            try:
+                from PseudoNetCDF.coordutil import _parse_ref_date
+                unit, base = timeunits.split(' since ')
+                rdate = _parse_ref_date(base)
+                if rdate.tzinfo is not None:
+                    rdate = rdate.astimezone(utc)
+                timeunits = '%s since %04d-%02d-%02d %02d:%02d:%02d' % (
+                    unit, rdate.year, rdate.month, rdate.day,
+                    rdate.hour, rdate.minute, rdate.second)
+            except Exception:
+                pass
         calendar = getattr(self.variables[timekey], 'calendar', 'standard')
         num = date2num(time, timeunits, calendar.strip())
         return num
